@@ -31,6 +31,9 @@ def _build(c, dst):
     elif pat == 2 and dt.kind != "f":
         info = np.iinfo(dt)
         base = rng.integers(info.min, int(info.max) + 1, size=(ns, h, w), dtype="int64")
+    elif pat == 3 and dt.kind == "f":
+        # values at the far end of the type's range (statistics with dozens of digits, bytes that do not compress)
+        base = (rng.random((ns, h, w)) + 0.5) * (1e29 if dt.itemsize == 4 else 1e250) * np.where(rng.random((ns, h, w)) < 0.5, -1.0, 1.0)
     data = base.astype(dt)
     kw = {}
     if c["nodata"]:
@@ -69,6 +72,8 @@ def _build(c, dst):
     elif len(bs) == 1 and (c["h"] + c["w"]) % 2 == 0:
         bs = bs[0]            # a single block size may be given as a plain number
     wkw = {"blocksize": bs, "stats": bool(c.get("stats", False)), "compression": c["comp"]}
+    if "stats" not in c and (c["h"] + c["w"]) % 2 == 0:
+        del wkw["stats"]          # the library's default (statistics are computed unless switched off)
     if c.get("lvlk", "none") != "none":
         wkw[c["lvlk"]] = c["lvlv"]
     if "pred" in c:
